@@ -1,8 +1,13 @@
 #!/bin/sh
-# Builds the symbolic executor offline from files on disk only.
+# Builds the symbolic executor offline from files on disk only, then validates it against the native tool chain
+# (tools/engine_selftest.sh, DESIGN.md 2.9; SKIP_ENGINE_SELFTEST=1 skips that step).
 set -e
 cd /verif/engine
 export GOFLAGS=-mod=mod GOPROXY=off GOSUMDB=off GOTOOLCHAIN=local
 mkdir -p /verif/bin
 go build -o /verif/bin/gosymex .
+if [ -z "$SKIP_ENGINE_SELFTEST" ]; then
+  out=$(/verif/tools/engine_selftest.sh 2>&1) || { echo "$out"; echo "engine self-test FAILED: the executor disagrees with the native tool chain"; exit 1; }
+  echo "$out" | grep -E '^(  H_engine|OK)'
+fi
 echo "setup ok"
